@@ -60,7 +60,9 @@ func main() {
 		fmt.Fprintf(os.Stderr, "unknown check %s\n", propID)
 		os.Exit(2)
 	}
-	defer os.RemoveAll(workRoot())
+	if os.Getenv("VERIF_KEEP") == "" {
+		defer os.RemoveAll(workRoot())
+	}
 	r := newReporter()
 	f(r)
 	r.finish()
@@ -68,7 +70,9 @@ func main() {
 
 func inconclusive(format string, a ...any) {
 	fmt.Printf("INCONCLUSIVE property=%s %s\n", propID, fmt.Sprintf(format, a...))
-	os.RemoveAll(workRoot())
+	if os.Getenv("VERIF_KEEP") == "" {
+		os.RemoveAll(workRoot())
+	}
 	os.Exit(2)
 }
 
